@@ -932,7 +932,7 @@ class ODLParser(PVLParser):
         # A real number may be an instance of the decoder's real_cls
         # (e.g. decimal.Decimal) instead of a float.
         numeric_types = (int, float, getattr(self.decoder, "real_cls", float))
-        if isinstance(value, numeric_types):
+        if isinstance(value, numeric_types) and not isinstance(value, bool):
             return super().parse_units(value, tokens)
 
         else:
